@@ -22,6 +22,32 @@ Definition gathered_ok (n Wg : nat) (order : list key) (iv : key -> nat -> gs) (
   (forall j k, j < n -> In k order -> get_key k (nth j gath []) = Some (iv k j)) /\
   (forall j k, n <= j < Wg -> In k order -> get_key k (nth j gath []) = Some (tl k)).
 
+(* the pseudo-metric rebuilt from rank j's ideal values *)
+Definition ideal_pseudo (order : list key) (iv : key -> nat -> gs) (j : nat) : pseudo_t :=
+  map (fun k => (snd k, iv k j)) order.
+
+Lemma pseudo_map name (v : key -> gs) order : (forall k, In k order -> fst k = name) ->
+  pseudo name (map (fun k => (k, v k)) order) = map (fun k => (snd k, v k)) order.
+Proof.
+  unfold pseudo. induction order as [|k r IH]; intros H; [reflexivity|]. cbn [map flat_map fst snd].
+  rewrite (H k (or_introl eq_refl)), String.eqb_refl. cbn [app]. f_equal. apply IH. intros k' Hk'. apply H. right; exact Hk'.
+Qed.
+
+Lemma traversal_single name (s : sdict) k : In k (traversal [(name, s)]) -> fst k = name.
+Proof.
+  unfold traversal, sort_keys. cbn [fold_right ins_key flat_map fst snd]. rewrite app_nil_r.
+  intros H. apply in_map_iff in H as (x & <- & _). reflexivity.
+Qed.
+
+Lemma others_ideal i n Wg order iv tl : n <= Wg -> (forall k, In k order -> fst k = TMP) ->
+  others i n (map (pseudo TMP) (ideal_gath n Wg order iv tl)) []
+  = map (ideal_pseudo order iv) (filter (fun r => negb (Nat.eqb r i)) (seq 0 n)).
+Proof.
+  intros HW Hk. unfold others. apply map_ext_in. intros r Hr. apply filter_In in Hr as [Hr _]. apply in_seq in Hr.
+  unfold ideal_gath. rewrite map_map. rewrite nth_map_seq by lia.
+  destruct (Nat.ltb_spec r n) as [_|Hge]; [|lia]. apply pseudo_map, Hk.
+Qed.
+
 Section ToolkitP.
 Variables (M Out : Type).
 Variable sd : M -> sdict.
@@ -84,6 +110,56 @@ Proof.
   bindr_with (fun i => sync_states None i Wg (map (fun km => (fst km, sd (snd km))) (mcs i))
                                    (traversal (map (fun km => (fst km, sd (snd km))) (mcs i))))
              (fun _ : nat => Some gath).
+  { exact Hrun. }
+  apply run_all_ret_ext. intros i _. reflexivity.
+Qed.
+
+Lemma synced_states_exact g Wg mds order iv tl : let n := List.length g in
+  n <= Wg -> NoDup order -> schema_agree g Wg mds order iv tl ->
+  run_all (respond g) (map (fun i => sync_states None i Wg (mds i) (traversal (mds i))) (seq 0 n))
+  = Some (map (fun _ => Ok (Some (ideal_gath n Wg order iv tl))) (seq 0 n)).
+Proof.
+  intros n HW Hnd [Htr Hid].
+  refine (extK g (fun i => sync_states None i Wg (mds i) order) _ _ _ _ _).
+  - intros i Hi. apply in_seq in Hi. rewrite Htr by lia. reflexivity.
+  - exact (mixed_collection_exact g None Wg mds order iv tl HW Hnd Hid).
+Qed.
+
+(* explicit form: the merged-in pseudo-metrics are exactly the ideal values of the OTHER ranks, in
+   rank order, each in traversal order *)
+Theorem sync_equals_local_merge_exact g Wg (ms : nat -> M) order iv tl : let n := List.length g in
+  n <> 1 -> n <= Wg -> NoDup order -> schema_agree g Wg (fun i => [(TMP, sd (ms i))]) order iv tl ->
+  run_all (respond g) (map (fun i => get_synced_metric M sd mrg n i Wg (ms i)) (seq 0 n))
+  = Some (map (fun i => Ok (mrg (ms i) (map (ideal_pseudo order iv)
+                                            (filter (fun r => negb (Nat.eqb r i)) (seq 0 n))))) (seq 0 n)).
+Proof.
+  intros n Hn1 HW Hnd Hs.
+  destruct g as [|g0 g']; [reflexivity|].
+  assert (Hk : forall k, In k order -> fst k = TMP).
+  { intros k Hin. destruct Hs as [Htr _]. rewrite <- (Htr 0) in Hin by (cbn; lia).
+    apply traversal_single in Hin. exact Hin. }
+  pose proof (synced_states_exact (g0 :: g') Wg _ order iv tl HW Hnd Hs) as Hrun.
+  unfold get_synced_metric. apply Nat.eqb_neq in Hn1. fold n. rewrite Hn1. cbv zeta.
+  bindr_with (fun i => sync_states None i Wg [(TMP, sd (ms i))] (traversal [(TMP, sd (ms i))]))
+             (fun _ : nat => Some (ideal_gath n Wg order iv tl)).
+  { exact Hrun. }
+  apply run_all_ret_ext. intros i _. do 3 f_equal. apply others_ideal; assumption.
+Qed.
+
+Theorem sync_collection_equals_local_merge_exact g Wg (mcs : nat -> list (string * M)) order iv tl :
+  let n := List.length g in
+  n <> 1 -> n <= Wg -> NoDup order ->
+  schema_agree g Wg (fun i => map (fun km => (fst km, sd (snd km))) (mcs i)) order iv tl ->
+  run_all (respond g) (map (fun i => get_synced_metric_collection M sd mrg n i Wg (mcs i)) (seq 0 n))
+  = Some (map (fun i => Ok (map (fun km => (fst km, mrg (snd km)
+                 (others i n (map (pseudo (fst km)) (ideal_gath n Wg order iv tl)) []))) (mcs i))) (seq 0 n)).
+Proof.
+  intros n Hn1 HW Hnd Hs.
+  pose proof (synced_states_exact g Wg _ order iv tl HW Hnd Hs) as Hrun.
+  unfold get_synced_metric_collection. apply Nat.eqb_neq in Hn1. fold n. rewrite Hn1. cbv zeta.
+  bindr_with (fun i => sync_states None i Wg (map (fun km => (fst km, sd (snd km))) (mcs i))
+                                   (traversal (map (fun km => (fst km, sd (snd km))) (mcs i))))
+             (fun _ : nat => Some (ideal_gath n Wg order iv tl)).
   { exact Hrun. }
   apply run_all_ret_ext. intros i _. reflexivity.
 Qed.
